@@ -249,4 +249,28 @@ theorem BrokerInv.index_mem {b : Broker} (hb : BrokerInv b) {e : SessKey × List
   obtain ⟨s, hs, _, hk⟩ := (hb.index_iff e.1 id).mp this
   exact ⟨s, hs, hk⟩
 
+/-- session removal changes nobody else's memberships -/
+theorem syncRemoveSession_isMember {b : Broker} (hb : BrokerInv b) (k : SessKey) (pub0 : Nat) (k' : SessKey) (id : Nat) :
+    (b.syncRemoveSession k pub0).1.isMember k' id ↔ b.isMember k' id ∧ k' ≠ k := by
+  have hb' := hb.removeSession k pub0
+  rw [← hb'.index_iff, ← hb.index_iff]
+  unfold Broker.syncRemoveSession
+  cases hg : idxGet b.index k with
+  | none =>
+    simp only
+    constructor
+    · intro h
+      refine ⟨h, ?_⟩
+      rintro rfl
+      unfold idxRel at h
+      rw [hg] at h
+      simp at h
+    · exact fun h => h.1
+  | some ids =>
+    simp only
+    have hids : ids.Nodup := hb.index_wf.ids _ (idxGet_some_mem hg)
+    obtain ⟨_, _, _, h4⟩ := removeMembers_state k ids { b with index := idxDrop b.index k } pub0 hb.ids_nodup hids
+    rw [h4]
+    exact idxRel_drop hb.index_wf k k' id
+
 end Nexus.L2
